@@ -12,6 +12,7 @@ import (
 	"bytes"
 	"context"
 	"crypto/tls"
+	"encoding/binary"
 	"fmt"
 	"io"
 	"log"
@@ -117,6 +118,60 @@ type conn struct {
 	tag   int
 	sni   string
 	class string
+}
+
+// runSideAddr: in address-forwarding mode the accepted connection reports the client address the proxy
+// forwarded, whatever its form (IPv4, IPv6, zoned link-local IPv6, a name).
+func runSideAddr(op string, rep *hx.Report) string {
+	p, err := snix.NewPeer()
+	if err != nil {
+		return "skip " + err.Error()
+	}
+	defer p.Close(2 * time.Second)
+	for _, a := range []string{"192.0.2.7:40001", "[2001:db8::1]:40002", "[fe80::1%eth0]:40003", "[fe80::aa:bb%12]:5", "[::1]:1", "client.example:443",
+		"10.0.0.1:65535", "[::ffff:192.0.2.1]:80"} {
+		c := sniproxy.VerifNewSideConn(p.Conn, a)
+		if got := c.RemoteAddr().String(); got != a {
+			rep.Fail("wrong-remote-addr", fmt.Sprintf("a side connection made for client %s reports RemoteAddr %s", a, got), []string{op})
+			return "failed"
+		}
+	}
+	return "ok"
+}
+
+// runKeysFresh: two endpoint clients created back to back (in the same second) must not issue the same
+// side-dial credentials: a late side connection of a kicked instance could otherwise be accepted by the
+// mailbox of its successor.
+func runKeysFresh(op string, rep *hx.Report) string {
+	type cred struct{ id, key uint64 }
+	first := func() (cred, bool) {
+		p, err := snix.NewPeerOpt(&sniproxy.Options{Siding: true, DialWithAddr: true})
+		if err != nil {
+			return cred{}, false
+		}
+		defer p.Close(2 * time.Second)
+		go func() {
+			ctx, cancel := context.WithTimeout(context.Background(), 500*time.Millisecond)
+			defer cancel()
+			if c, err := p.Client.Dial(ctx, "192.0.2.7:1"); err == nil {
+				c.Close()
+			}
+		}()
+		r, ok := p.NextReq(3 * time.Second)
+		if !ok || len(r.Body) < 16 {
+			return cred{}, false
+		}
+		return cred{binary.LittleEndian.Uint64(r.Body), binary.LittleEndian.Uint64(r.Body[8:])}, true
+	}
+	for i := 0; i < 4; i++ {
+		a, ok1 := first()
+		b, ok2 := first()
+		if ok1 && ok2 && a == b {
+			rep.Fail("side-credentials-repeat", fmt.Sprintf("two endpoint clients created one after the other both issued the side-dial credentials (id %d, key %d) for their first dial", a.id, a.key), []string{op})
+			return "failed"
+		}
+	}
+	return "ok"
 }
 
 // runRepoint: the configured lookup changes its answer between connections (a name is re-pointed to another
@@ -624,6 +679,7 @@ func main() {
 		for _, mode := range []string{"legacy", "siding-addr"} {
 			ops = append(ops, fmt.Sprintf("e2e mode=%s seed=%d conns=%d focus=1 procs=1", mode, r.U64()%100000, 24))
 		}
+		ops = append(ops, "sideaddr", "keysfresh")
 		ops = append(ops, "long calls=70000")
 		for _, mode := range []string{"legacy", "siding", "siding-addr"} {
 			ops = append(ops, "repoint mode="+mode)
@@ -675,6 +731,14 @@ func main() {
 	failedMode := map[string]bool{} // once a mode has shown a violation do not spend more time-outs on it
 	for _, op := range ops {
 		switch {
+		case op == "sideaddr":
+			rep.Case(op, true)
+			rep.Count("sideaddr")
+			runSideAddr(op, rep)
+		case op == "keysfresh":
+			rep.Case(op, true)
+			rep.Count("keysfresh")
+			runKeysFresh(op, rep)
 		case strings.HasPrefix(op, "repoint "):
 			rep.Case(op, true)
 			rep.Count("repoint")
